@@ -78,7 +78,7 @@ Theorem c06_clause_step : forall cs st c,
   | Err _ => match c with
              | CStoryline t => wf_story (defined (st_specs st)) (acts_of t) = false
              | CEdit f => wf_story (defined (st_specs st)) (acts_of (f (print_story (st_story st)))) = false
-             | CEntails _ (TActor a) _ => existsb (fun e => bytes_eqb (fst e) a) cs = false
+             | CEntails _ (TActor a) _ => existsb (fun e => bytes_eqb (fst e) a) (cs ++ st_more st) = false
              | _ => False
              end
   | _ => False
@@ -290,3 +290,24 @@ Example c06_edit_leftmost_first_example :
   obind (do_edit dfn [[x61; x62; x2e; x62]; [x62; x61]] e1) (fun sl => do_edit dfn sl e2)
   = Ok [[x63; x62; x2e; x62]; [x63; x63]].
 Proof. vm_compute. reflexivity. Qed.
+
+(** Several cast sections: `every <role>` means the actors of the role when
+    the clause is read.  Scene a is defined with one doctor (A); two more are
+    hired (B, C); scene b, defined afterwards, entails all three, scene a still
+    only A. *)
+Example c06_late_cast_example :
+  let doc := [x64] in
+  let cmds := [ CEntails x61 (TEvery doc) [[x70]];
+                CCast [([x42], doc); ([x43], doc)];
+                CEntails x62 (TEvery doc) [[x71; x3f]];
+                CStoryline [x61; x62] ] in
+  compile_script [([x41], doc)] 5 cmds
+  = Ok ([[x61; x62]],
+        [[ mkScene 0 [mkLine (Some [x41]) [mkStep false [x70] false]];
+           mkScene 5 [mkLine (Some [x41]) [mkStep false [x71] true];
+                      mkLine (Some [x42]) [mkStep false [x71] true];
+                      mkLine (Some [x43]) [mkStep false [x71] true]];
+           mkScene 10 [] ]])
+  /\ map fst (ss_entails (den_specs [([x41], doc)] cmds x61)) = [[x41]]
+  /\ map fst (ss_entails (den_specs [([x41], doc)] cmds x62)) = [[x41]; [x42]; [x43]].
+Proof. vm_compute. repeat split. Qed.
